@@ -299,7 +299,11 @@ def revoke (E : Env) (now : Nat) (n : Node) (credId : String) (e : StatusEntry) 
         | .err x => .err x
         | .panic s => .panic s
 
-/-- `Credential` (what the node serves at `<base>/statuslist/<issuer>/<page>`) -/
+/-- `Credential` (what the node serves at `<base>/statuslist/<issuer>/<page>`).
+    The reads before its transaction (`isManaged`, `loadCredential`, `ResolveKey`) only decide whether the stored list is
+    served or a new one is issued; the revocations the new list is built from are read inside the transaction after the
+    row lock (fact `credentialCalls`), so one atomic step describes it (a `Revoke` that commits in between is equivalent to
+    one that commits before; the harness forces exactly that interleaving with its `serverace` operation). -/
 def credential (E : Env) (now : Nat) (n : Node) (issuer : String) (page : Nat) : Res (VC × Node) :=
   let u := n.url issuer page
   match n.page? u with
